@@ -25,7 +25,7 @@ def K(rnd, lo=0.2, hi=3.0):
     return gen.nice(rnd, lo, hi)
 
 
-def template(rnd, name, variant=None):
+def template(rnd, name, variant=None, hill=None):
     """returns (spec, counters_ok, sims)"""
     ma = lambda reac, prod, k: {"type": "massaction", "reactants": reac, "products": prod, "fields": {"k": k}}
     sims = ["ssa", "safe", "psm"]
@@ -69,6 +69,8 @@ def template(rnd, name, variant=None):
     elif name == "hill":
         ty = rnd.choice(["hillpositive", "proportionalhillpositive", "proportionalhillnegative", "hillnegative"])
         n = float(rnd.choice([1, 2, 3])) if rnd.random() < 0.6 else float("%.3g" % rnd.uniform(0.5, 3))
+        if hill is not None:
+            ty, n = hill
         f = {"k": K(rnd, 0.5, 4), "K": K(rnd, 1, 4), "n": n}
         rx = [ma(["A"], ["S"], K(rnd, 0.3, 2))]
         if ty == "hillpositive":
